@@ -3,7 +3,7 @@ package main
 func init() {
 	properties["C01"] = &Property{
 		Title: "blocks expand back to the input (round trip)",
-		Rules: []string{"R-TILE", "R-LITPAIR", "R-INVALIDATE", "R-OSAP-RANGE", "R-SHRINK-WRAP", "R-SHRINK-PB"},
+		Rules: []string{"R-TILE", "R-LITPAIR", "R-BLOCKCLIP", "R-INVALIDATE", "R-OSAP-RANGE", "R-OSAP-INDEX", "R-SHRINK-WRAP", "R-SHRINK-PB"},
 		Decided: "tiling of the block by literal runs and matches (cursor discipline, epilogue), LitLen/literal pairing, re-basing/dropping of all search state on Shrink, recompute guard of OSAP's unverified edges.",
 		NotDecided: "byte-for-byte equality of the expansion; correctness of the 8-byte compare arithmetic, lcp/lcs, suffix.Sort/LCP/Segments.",
 	}
@@ -15,7 +15,7 @@ func init() {
 	}
 	properties["C03"] = &Property{
 		Title: "Parse accounts exactly and makes progress",
-		Rules: []string{"R-CLAMP-N", "R-EMPTY", "R-ADVANCE", "R-TILE", "R-WWRITERS", "R-BLOCKLEN"},
+		Rules: []string{"R-CLAMP-N", "R-EMPTY", "R-ADVANCE", "R-TILE", "R-BLOCKCLIP", "R-WWRITERS", "R-BLOCKLEN"},
 		Decided: "block clamp, ErrEmptyBuffer discipline, returned n equals the W advance on every success return, W writer set, Block.Len.",
 		NotDecided: "that the bytes between W and W+n are the ones expanded (C01).",
 	}
@@ -70,7 +70,7 @@ func init() {
 func init() {
 	properties["C15"] = &Property{
 		Title: "the parser buffer is a faithful, bounded sliding view",
-		Rules: []string{"R-INDEXGUARD", "R-DEADERR", "R-WRITEBOUND", "R-READBOUND", "R-READFROM", "R-MARGIN", "R-SHRINK-PB", "R-SHRINK-WRAP"},
+		Rules: []string{"R-INDEXGUARD", "R-DEADERR", "R-WRITEBOUND", "R-READBOUND", "R-READFROM", "R-MARGIN", "R-SHRINK-PB", "R-SHRINK-WRAP", "R-RESET-COVER"},
 		Decided: "index/slice guards of the accessors, reachability of the documented errors, byte bounds of Write/ReadFrom, 7-byte margin, Shrink arithmetic and its wrappers.",
 		NotDecided: "that the byte at absolute offset x is the x-th byte fed (contents equality); behaviour under caller mutation of exported fields.",
 	}
@@ -85,7 +85,7 @@ func init() {
 func init() {
 	properties["C13"] = &Property{
 		Title: "Reset ≡ new parser; determinism; instance isolation",
-		Rules: []string{"R-RESET-COVER", "R-COPY-CLOBBER", "R-NOGLOBAL", "R-NONDET"},
+		Rules: []string{"R-RESET-COVER", "R-COPY-CLOBBER", "R-NOGLOBAL", "R-NONDET", "R-HASHRANGE"},
 		Decided: "every location Parse may write is re-initialised by the method Reset resolves to; no live element is clobbered when a reused backing array is re-grown; no package-level mutable state; no nondeterminism source reachable from the API.",
 		NotDecided: "equality of blocks as such (follows for location-abstracted state); effects of retained capacity are assumed invisible except where R-COPY-CLOBBER applies.",
 	}
